@@ -2412,7 +2412,7 @@ class DenseArrayBase(
     def verify(self):
         data_len = len(self.data.data)
         elt_size = self.elt_type.size
-        if data_len % elt_size:
+        if data_len % elt_size if elt_size else data_len:
             raise VerifyException(
                 f"Data length of {self.name} ({data_len}) not divisible by element "
                 f"size {elt_size}"
